@@ -13,7 +13,7 @@ CHECKS = {
         engine="kvc", category="proof", design_ref="DESIGN.md §2, §6 C08",
         technique="deductive verification: loop-invariant VCs generated from the real kernel source, discharged by z3/cvc5",
         text="Every obligation generated from the current set_operations.pyx (loop invariants initial/preserved, postconditions of the three two-way merge kernels, of the None-convention wrappers and of the multi-way union set_union_merge_many with its nested loops, call-site preconditions; 932 obligations) is discharged for all array lengths, contents and numbers of arrays with no bound; a failed obligation is replayed on the real compiled kernel (counter-model or small-scope witness search). The multi-way union is additionally run on every list of <= 3 arrays over a 5-value universe (this bounded part covers the filtering of empty arrays and the empty list, which the proof takes as given).",
-        note="Trusted: Cython codegen/gcc/NumPy internals, the .pyx normaliser (cross-checked against Cython's parser every run), NumPy library axioms (probed), clause-language renderers (self-checked), solver soundness; len < 2**31 as documented by the kernels.",
+        note="Loop invariants are written for one statement skeleton of a kernel (contracts/kernel_skeletons.json); alternative sidecars keyed by skeleton (the two-pointer form of the intersection kernel is entered) re-establish the proof for a restructured body; an open invariant on a body with an unknown skeleton is proof_stale + bounded run (exhaustive small scope, dense and block families up to 1100 elements), not a violation. Trusted: Cython codegen/gcc/NumPy internals, the .pyx normaliser (cross-checked against Cython's parser every run), NumPy library axioms (probed), clause-language renderers (self-checked), solver soundness; len < 2**31 as documented by the kernels.",
     ),
     "C09": dict(
         engine="kvc", category="proof", design_ref="DESIGN.md §2, §6 C09",
@@ -54,7 +54,7 @@ CHECKS = {
     "C12": dict(
         engine="kvc", category="proof", design_ref="DESIGN.md §2, §6 C12",
         technique="deductive verification: symbolic cut point k over the real load AST - no path returns or passes mmap on any strict prefix; plus exhaustive cut enumeration on real files (bounded)",
-        text="For every documented file F (size field == len(F)-16, proved from save) and every 0 <= k < len(F), abstract execution of the real load shows each path ends in a raise (short magic/version read, struct.error on a short size word, mmap longer than the file); each raising path is feasible (not vacuous). Additionally every cut of every file in scope is loaded for real, and sparse files of 4-16 GiB apparent size (payload and row totals crossing 2**32) are cut around every power-of-two residue of payload, length and totals.",
+        text="For every documented file F (size field == len(F)-16, proved from save) and every 0 <= k < len(F), abstract execution of the real load shows each path ends in a raise (short magic/version read, struct.error on a short size word, mmap longer than the file); each raising path is feasible (not vacuous). Additionally every cut of every file in scope is loaded for real, and sparse files of 4-16 GiB apparent size (payload and row totals crossing 2**32) are cut around every power-of-two residue of payload, length and totals; every cut of the foreign files in all 16 word-size pairs (row-id words of 1, 2, 4, 8 bytes).",
         note="Rests on C11's size-field obligation (included in this check's obligations) and on the mmap/struct/read axioms (probed each run).",
     ),
     "C10": dict(
